@@ -39,6 +39,7 @@ def parseEv (w : String) : Option Ev :=
     | 'W' :: 'C' :: r => do some (.wc (← nat? r) (← b.toNat?))
     | 'L' :: 'T' :: r => do some (.reloadRet (← nat? r) b)
     | 'F' :: 'X' :: r => do some (.inject (← nat? r) (← parseOut b))
+    | ['C', 'W'] => some (.cbWait (b == "done"))
     | _ => none
   | [a, b, c] =>
     match a.toList with
